@@ -596,4 +596,46 @@ def build (g : Grammar) (s : Settings) (fuel : Nat) : Res Table :=
 def conflictCells (t : Table) : Nat :=
   t.states.toList.foldl (fun n st => n + (st.actions.toList.filter fun c => decide (1 < c.length)).length) 0
 
+/-! ## Well-formedness of the grammar (what `GrammarBuilder` guarantees; decidable, checked by the driver on every dump) -/
+
+def symOk (g : Grammar) (X : Nat) : Bool :=
+  decide (0 < X) && decide (X < g.nterms + g.nnonterms) && X != g.augIdx && some X != g.auglIdx &&
+    X != g.emptyIdx
+
+def prodOk (g : Grammar) (pr : Prod) : Bool :=
+  decide (g.nterms ≤ pr.lhs) && decide (pr.lhs < g.nterms + g.nnonterms) && pr.rhs.all (symOk g)
+
+def auglOk (g : Grammar) : Bool :=
+  match g.auglIdx with
+  | none => true
+  | some l =>
+    decide (g.nterms ≤ l) && decide (l < g.nterms + g.nnonterms) && l != g.augIdx &&
+      (match Canon.prodsOf g l with
+       | [p] =>
+         (match g.prods[p]? with
+          | some pr => pr.rhs.length == 1
+          | none => false)
+       | _ => false)
+
+def termOk (tm : Terminal) : Bool :=
+  decide (tm.prio * 1000 + (match tm.recog with
+    | some (.str s) => s.utf8ByteSize
+    | _ => 0) < 4294967296)
+
+/-- STOP is terminal 0 and occurs in no production, nor does EMPTY; symbols are in range; left-hand sides are
+    nonterminals; production 0 is the only production of AUG and is `AUG: start`; AUG and AUGL occur in
+    no right-hand side; AUGL (if any) has exactly one production, with one symbol; terminal priorities
+    do not overflow the `u32` sort key -/
+def gwf (g : Grammar) : Bool :=
+  decide (0 < g.nterms) && g.terms.size == g.nterms &&
+  decide (g.nterms ≤ g.emptyIdx) && decide (g.emptyIdx < g.nterms + g.nnonterms) &&
+  decide (g.nterms ≤ g.augIdx) && decide (g.augIdx < g.nterms + g.nnonterms) &&
+  g.prods.toList.all (prodOk g) &&
+  (match g.prods[0]? with
+   | some pr => pr.lhs == g.augIdx && pr.rhs == [g.startIdx]
+   | none => false) &&
+  Canon.prodsOf g g.augIdx == [0] &&
+  auglOk g &&
+  g.terms.toList.all termOk
+
 end Rustemo.Table
